@@ -11,9 +11,14 @@ import (
 	"github.com/vulcand/oxy/v2/zverif/c17"
 	"github.com/vulcand/oxy/v2/zverif/c19"
 	"github.com/vulcand/oxy/v2/zverif/cb"
+	"github.com/vulcand/oxy/v2/zverif/fwd"
 )
 
 func init() {
+	parts["c08"] = fwd.RunC08
+	replays["c08"] = fwd.ReplayC08
+	parts["c16"] = fwd.RunC16
+	replays["c16"] = fwd.ReplayC16
 	parts["c06"] = buf.RunC06
 	replays["c06"] = buf.ReplayC06
 	parts["c07"] = buf.RunC07
